@@ -13,6 +13,12 @@
    atoms; every case records (v, dumped, parsed, redumped, reparsed).  HeaderCodecTrace.tla (TLC)
    decides domain membership, parsed = v, reparsed = parsed, and reports drift between the real
    dump text / parse and the transcription.
+4. Second layer (HeaderCodec2.tla / MCHeaderCodec2.tla): the typed property layer of Request/ResponseCacheControl
+   (every sequence of property assignments; getters with their "empty" values and int conversion), base64 over
+   byte sequences, Authorization Basic over UTF-8, the token68 / auth-param forms of both auth classes (str.title,
+   Digest quoting rule), parse_options_header with RFC 2231 charset values and continuations, HeaderSet as a
+   case-insensitively de-duplicated list; the same three bindings (TLC laws, export replay, judged real round
+   trips with drift) under the codec names cachecontrol, basic, authparam, options2231.
 """
 from __future__ import annotations
 
@@ -90,19 +96,36 @@ def run(ctx: Ctx):
         "Cache-Control (typed properties of Response/RequestCacheControl), Authorization (Basic over Unicode user/password without ':' "
         "in user; token68-like tokens; parameter schemes with >= 1 str parameter), WWW-Authenticate: laws on recorded values only "
         "(base64 and the property layer are not transcribed); email.utils is not modelled, the IMF-fixdate text is pinned by HttpDate",
-        "RFC 2231 key*= forms are outside the domain; the model flags them instead of decoding them",
+        "RFC 2231 key*=charset'lang'%XX values and key*N continuations are transcribed on the parse side (options2231); "
+        "dump_options_header never emits them (non-ASCII values are quoted as they are, and that pair is inverse); keys with '*' stay "
+        "outside the dump domain; percent-decoded invalid UTF-8 and non-ASCII text inside a key*= value are flagged, not modelled",
+        "cachecontrol: a value is a sequence of typed-property assignments on an empty ResponseCacheControl (bool properties: "
+        "True/False/None; int properties: ints, True/False/None; no_cache/private: str, True/False/None) or a RequestCacheControl "
+        "built from str|None items; compared by the typed view of every property and the underlying dict",
+        "basic: user without ':' (password may contain ':', both may be empty), UTF-8; base64 transcribed for canonical input, "
+        "binascii's lenient skipping of foreign characters is flagged, not modelled",
     ]
     # 1. model checking
     ctx.model_check(AREA, "MCHeaderCodec", "MCQ_inv", timeout=900)
     ctx.model_check(AREA, "MCHeaderCodec", "MCQ_nf", timeout=900)
-    if not q:
-        for cfg in ("MCT_inv", "MCT_inv3", "MCT_nf", "MCT_nfw"):
-            ctx.model_check(AREA, "MCHeaderCodec", cfg, timeout=3000)
-    ctx.exhaustive = True
-    variants = ("MCV_range_anyorder", "MCV_quote_order", "MCV_token_choice", "MCV_utc_offset")
+    # second layer (HeaderCodec2.tla: cache-control typed properties, base64 / Basic / auth-params, RFC 2231 option values,
+    # HeaderSet) and the list codec one length bound higher; small configs, run side by side
+    small = [("MCHeaderCodec2", "MC2Q_inv"), ("MCHeaderCodec2", "MC2Q_nf"), ("MCHeaderCodec", "MCQ_inv_l"), ("MCHeaderCodec", "MCQ_nf_l")]
+    w = max(1, ctx.workers // 4)
     with cf.ThreadPoolExecutor(max_workers=4) as ex:
-        res = list(ex.map(lambda c: tlc.run_tlc(AREA, "MCHeaderCodec", c, workers=1, tmp=ctx.tmp, allow_violation=True, timeout=600), variants))
-    broken = {c: r.invariant_violated for c, r in zip(variants, res)}
+        list(ex.map(lambda mc: ctx.model_check(AREA, mc[0], mc[1], timeout=900, workers=w), small))
+    if not q:
+        for cfg in ("MCT_inv", "MCT_inv3", "MCT_nf", "MCT_nfw", "MCT_inv_l", "MCT_nf_l"):
+            ctx.model_check(AREA, "MCHeaderCodec", cfg, timeout=3000)
+        for cfg in ("MC2T_inv", "MC2T_nf"):
+            ctx.model_check(AREA, "MCHeaderCodec2", cfg, timeout=3000)
+    ctx.exhaustive = True
+    variants = (("MCHeaderCodec", "MCV_range_anyorder"), ("MCHeaderCodec", "MCV_quote_order"), ("MCHeaderCodec", "MCV_token_choice"),
+                ("MCHeaderCodec", "MCV_utc_offset"), ("MCHeaderCodec2", "MC2V_b64pad"), ("MCHeaderCodec2", "MC2V_usercolon"),
+                ("MCHeaderCodec2", "MC2V_digesttoken"), ("MCHeaderCodec2", "MC2V_intempty"))
+    with cf.ThreadPoolExecutor(max_workers=4) as ex:
+        res = list(ex.map(lambda mc: tlc.run_tlc(AREA, mc[0], mc[1], workers=1, tmp=ctx.tmp, allow_violation=True, timeout=600), variants))
+    broken = {mc[1]: r.invariant_violated for mc, r in zip(variants, res)}
     ctx.notes["broken_model_variants_violate"] = broken
     if not all(broken.values()):
         raise MachineryError(f"a deliberately broken model variant passes (vacuous invariants?): {broken}")
@@ -111,6 +134,10 @@ def run(ctx: Ctx):
     for cfg in (("MCX_inv_q", "MCX_nf_q") if q else ("MCX_inv", "MCX_nf")):
         printed += ctx.export(AREA, "MCHeaderCodec", cfg, count_states=False, timeout=3000)
     cases = hc.model_cases(printed)
+    printed2 = []
+    for cfg in (("MC2X_inv", "MC2X_nf") if q else ("MC2XT_inv", "MC2XT_nf")):
+        printed2 += ctx.export(AREA, "MCHeaderCodec2", cfg, count_states=False, timeout=3000)
+    cases += hc.model_cases2(printed2)
     ctx.notes["model_cases_exported"] = len(cases)
     # 3. code -> spec
     cases += hc.sweep_cases()
@@ -120,6 +147,10 @@ def run(ctx: Ctx):
         for _ in range(n):
             cases.append(hc.random_case(rng, codec))
     cases += hc.nf_cases(rng, 250 if q else 3000)
+    for codec in hc.CODECS2:
+        for _ in range(n):
+            cases.append(hc.random_case2(rng, codec))
+    cases += hc.nf_cases2(rng, 200 if q else 3000)
     by = {}
     for c in cases:
         by[(c["op"], c["codec"])] = by.get((c["op"], c["codec"]), 0) + 1
